@@ -67,6 +67,14 @@ def run(ctx):
             for nlp in (False, True):
                 extra.append(dict(entry=entry, limit=5, nlp=nlp, fuzzy=True, thr=0, ponly=False, pboost=False, allplat=True, plats=[],
                                   nocross=False, boost=False, query="raw", raw=(filler + " " + tail)[-990:].strip(), corpus="mix"))
+    # the same request asked before with one option flipped (in the original spelling): the re-spelt query and the original get the same answer
+    for entry in ("cached", "monitored"):
+        for qk in ("lex", "typo"):
+            for prime in ("nocross", "allplat", "ponly", "plats"):
+                for nocross in (False, True):
+                    for plats in ([], ["linux"], ["windows"]):
+                        extra.append(dict(entry=entry, limit=20, nlp=rnd.random() < 0.5, fuzzy=True, thr=0, ponly=False, pboost=False, allplat=False,
+                                          plats=plats, nocross=nocross, boost=False, query=qk, corpus=rnd.choice(["plat", "mix"]), prime=prime))
     # a query that is exactly the name of a command (its first word), on the entry points that orchestrate exact + typo search
     for name in ("zqax", "zqzx", "zqmx", "zqkx"):
         for entry in ("legacyfuzzy", "legacynlp", "legacyoptions", "universal", "pipeline"):
